@@ -23,7 +23,11 @@ ColPool == { [f |-> f, mod |-> m, brk |-> b, min |-> r[1], max |-> r[2]] :
                  f \in Fields, m \in {"", "val", "name", "full"}, b \in BOOLEAN, r \in Ranges }
 Cols1 == { c \in ColPool : c.mod \in Mods(c.f) }
 ColLists == UNION { [1 .. n -> Cols1] : n \in 1 .. MaxCols }
-LimitPool == { <<30, 20>>, <<1, 1>>, <<0, 2>>, <<2, 0>>, <<-1, -1>> }        \* <<-1,-1>> = "*" (no limits)
+LimitPool == { <<30, 20>>, <<1, 1>>, <<0, 2>>, <<2, 0>>, <<2, 2>>, <<-1, -1>> }        \* <<-1,-1>> = "*" (no limits)
+(* half-open pairs can only be given through the constructor argument limits=(n_first, n_last) with one None (-1):  *)
+(* they mean "no limits" and are reported as "*"                                                                     *)
+HalfOpen == { <<-1, 2>>, <<3, -1>> }
+NoLimits(l) == l[1] < 0 \/ l[2] < 0
 
 VARIABLES cols, limits, frozen, skipped, hist, n
 vars == <<cols, limits, frozen, skipped, hist, n>>
@@ -32,11 +36,11 @@ vars == <<cols, limits, frozen, skipped, hist, n>>
 (* is decided by the real table and reported back only through the shape of the fmt string   *)
 Shape == [cols   |-> [i \in 1 .. Len(cols) |-> cols[i] @@ [annot |-> frozen /\ cols[i].min # cols[i].max]],
           limits |-> IF skipped = "no" THEN [k |-> "omitted", n |-> 0, m |-> 0]
-                     ELSE IF limits[1] < 0 THEN [k |-> "star", n |-> 0, m |-> 0]
+                     ELSE IF NoLimits(limits) THEN [k |-> "star", n |-> 0, m |-> 0]
                      ELSE [k |-> "nm", n |-> limits[1], m |-> limits[2]]]
 
 Init == /\ \E cl \in ColLists : cols = cl
-        /\ \E l \in LimitPool : limits = l
+        /\ \E l \in LimitPool \cup HalfOpen : limits = l
         /\ frozen = FALSE /\ skipped = "unknown" /\ n = 0
         /\ hist = << [op |-> "construct", cols |-> cols, limits |-> limits] >>
 Can == n < MaxActions
@@ -45,7 +49,7 @@ Can == n < MaxActions
 DoPrint == /\ Can /\ n' = n + 1
          /\ frozen' = TRUE
          /\ \E s \in {"yes", "no"} :
-              /\ (limits[1] < 0 => s = "no")
+              /\ (NoLimits(limits) => s = "no")
               /\ skipped' = s
               /\ hist' = Append(hist, [op |-> "print", skipped |-> s])
          /\ UNCHANGED <<cols, limits>>
